@@ -3,6 +3,7 @@ package execute
 import (
 	"errors"
 	"fmt"
+	"slices"
 	"sort"
 	"time"
 
@@ -213,7 +214,19 @@ func filterOutExecutedMessages(
 		filtered = append(filtered, reports[i])
 	}
 
-	return filtered, nil
+	// A report stops being pending once every one of its messages is executed, however the executed ranges were
+	// cut (e.g. one range per message). A sequence number returned more than once is recorded once.
+	var pending []exectypes.CommitData
+	for _, report := range filtered {
+		report.ExecutedMessages = slices.Compact(report.ExecutedMessages)
+		numMessages := uint64(report.SequenceNumberRange.End()-report.SequenceNumberRange.Start()) + 1
+		if len(report.ExecutedMessages) > 0 && uint64(len(report.ExecutedMessages)) == numMessages {
+			continue
+		}
+		pending = append(pending, report)
+	}
+
+	return pending, nil
 }
 
 // truncateObservation truncates the observation to fit within the given maxSize after encoding.
